@@ -1187,8 +1187,17 @@ fn c11_one(ctx: &Ctx, t: usize, k: u64, frag: &mut Frag) {
         }
     };
     let _ = vu;
-    // writer: exact-size window from the checked size
+    // writer: exact-size window from the size the unchecked writer itself reports
+    // (its own TLengthProtocol), which must agree with the checked codec's
     let size = vc.size(WP::Binary);
+    match guarded(|| vc.size(WP::Unchecked)) {
+        Ok(us) if us != size => {
+            frag.count("gen.encode.own-size");
+            viol(frag, "c11", "gen|encode|unchecked-size-differs", format!("{}: the unchecked writer reports {} bytes, the checked codec {} (a buffer of the reported size is overrun / left partly unwritten)", tname(t), us, size), cj());
+        }
+        Ok(_) => frag.count("gen.encode.own-size"),
+        Err(p) => viol(frag, "c11", &format!("gen|size|panic|{}|{}", p.site(), p.class()), format!("{} {}", p.location, p.message), cj()),
+    }
     for bk in ALL_BK {
         sub_mark(&format!("c11 {} encode {} window={}", tname(t), bk.name(), size));
         frag.count(&format!("gen.encode.{}", bk.name()));
